@@ -973,3 +973,32 @@ func sortedKeys[M ~map[string]V, V any](m M) []string {
 	sort.Strings(ks)
 	return ks
 }
+
+// Replace substitutes arbitrary subterms (by identity) according to m.
+func Replace(t *Term, m map[*Term]*Term) *Term {
+	cache := map[*Term]*Term{}
+	var rec func(t *Term) *Term
+	rec = func(t *Term) *Term {
+		if r, ok := m[t]; ok {
+			return r
+		}
+		if r, ok := cache[t]; ok {
+			return r
+		}
+		r := t
+		if len(t.Args) > 0 {
+			args := make([]*Term, len(t.Args))
+			ch := false
+			for i, a := range t.Args {
+				args[i] = rec(a)
+				ch = ch || args[i] != a
+			}
+			if ch {
+				r = rebuild(t, args)
+			}
+		}
+		cache[t] = r
+		return r
+	}
+	return rec(t)
+}
